@@ -851,7 +851,23 @@ pub fn run_l1(scn: &C10Scenario, stats: &mut RunStats) -> Vec<Violation> {
                                 }
                             }
                         } else {
-                            tree.source_changed(Path::new(path));
+                            // a library user may report a changed known source through
+                            // `add_source` as well (it restarts a source it already knows)
+                            let input = gen::normalize(&opts.input);
+                            let out = opts.output.clone().unwrap_or_default();
+                            let mirror = path.strip_prefix(&format!("{}/", input)).map(|rel| {
+                                Path::new(&out).join(rel).to_string_lossy().into_owned()
+                            });
+                            if scn.use_add_source
+                                && gen::is_lua(path)
+                                && mirror.is_some()
+                                && crate::rng::mix(scn.seed, op_index as u64) % 2 == 0
+                            {
+                                let mirror = if opts.output.is_none() { None } else { mirror };
+                                tree.add_source(Path::new(path), mirror.map(Into::into));
+                            } else {
+                                tree.source_changed(Path::new(path));
+                            }
                         }
                     });
                     if let Err(msg) = result {
